@@ -58,6 +58,34 @@ def extract(repo):
     e = R.translate(body[i:], ATOMS, result="(ic, lc)")
     out += ["/-- the cursor fix-up at the end of `fn append_sorted_items` (`n` = the length AFTER the append): the new (item_cursor, line_cursor) -/",
             "def appendFixup (lc ic n H : Nat) : Nat × Nat :=", indent(e[0]), ""]
+    # Draw::draw of the list: the range of items painted, the row of each, where the pointer goes
+    body, _ = R.fn_body(src, "draw")
+    i, j = body.find("let item_idx_lower"), body.find("clear_canvas(canvas)")
+    if i < 0 or j < i:
+        raise R.Unsupported("draw: the item range is not computed before clear_canvas")
+    e = R.translate(body[i:j] + "\n(item_idx_lower, item_idx_upper)", ATOMS, locals_={"screen_height": "Nat"})
+    out += ["/-- `Draw::draw`: the half-open range of item indices it paints on a canvas of height `screen_height` -/",
+            "def drawRange (ic n screen_height : Nat) : Nat × Nat :=", indent(e[0]), ""]
+    m = re.search(r"for\s+item_idx\s+in\s+item_idx_lower\s*\.\.\s*item_idx_upper\s*\{", body)
+    if not m:
+        raise R.Unsupported("draw: loop `for item_idx in item_idx_lower..item_idx_upper` not found")
+    loop = body[m.end():]
+    m2 = re.search(r"let\s+line_cursor\s*=.*?let\s+line_no\s*=\s*if.*?\}\s*else\s*\{.*?\}\s*;", loop, re.S)
+    if not m2 or m2.start() > 5 and loop[:m2.start()].strip():
+        raise R.Unsupported("draw: `let line_cursor = ..; let line_no = if ..;` not at the top of the loop")
+    e = R.translate(m2.group(0) + "\n(line_cursor, line_no)", ATOMS, locals_={"screen_height": "Nat", "item_idx": "Nat", "item_idx_lower": "Nat"})
+    out += ["/-- `Draw::draw`, one iteration: (row of the window, screen row) of item `item_idx` -/",
+            "def drawRow (rev : Bool) (item_idx_lower screen_height item_idx : Nat) : Nat × Nat :=", indent(e[0]), ""]
+    m3 = re.search(r"let\s+label\s*=\s*if\s+(.*?)\s*\{\s*\">\"\s*\}\s*else\s*\{\s*\" \"\s*\}\s*;", loop, re.S)
+    if not m3:
+        raise R.Unsupported("draw: the pointer label `if .. { \">\" } else { \" \" }` not found")
+    tr = R.Tr(m3.group(1), ATOMS)
+    tr.env.update({"line_cursor": "Nat"})
+    c = tr.expr()
+    if tr.p != len(tr.t):
+        raise R.Unsupported("draw: pointer condition not understood")
+    out += ["/-- `Draw::draw`: the row of the window that gets the pointer label `>` -/",
+            "def pointerHere (line_cursor lc : Nat) : Prop :=", indent(tr.prop(c)), ""]
     out += ["end SkimModel.Generated.CursorFns", ""]
     return "\n".join(out)
 
